@@ -123,3 +123,29 @@ package chord
 //@   loop 1 invariant forall(j, 0, rangeindex + 1, forall(l, j + 1, rangeindex + 1, b.chords[l].Name != b.chords[j].Meta.Display && b.chords[l].Meta.Display != b.chords[j].Meta.Display) ==> chords[b.chords[j].Meta.Display] == b.chords[j])
 //@   loop 1 invariant forall(k, string, dom(attrs, k) == exists(j, 0, len(b.attrs), b.attrs[j].Name == k))
 //@   loop 1 decreases len(b.chords) - rangeindex
+
+// ---- gen attr: every generated attribute name denotes the interval its English name says (C16) ----
+//@ define prefixOf(n) ite(n == note.MajorDegree, "Major", ite(n == note.MinorDegree, "Minor", ite(n == note.PerfectDegree, "Perfect", ite(n == note.AugmentedDegree, "Augmented", ite(n == note.DiminishedDegree, "Diminished", "")))))
+//@ define named(a) prefixOf(a.Degree.Name) != "" && a.Name == prefixOf(a.Degree.Name) + spec.dec(a.Degree.Value) && spec.validInterval(a.Degree.Value, note.qual(a.Degree.Name))
+//@ define allNamed(s) forall(i, 0, len(s), named(s[i]))
+
+// the body of the loop over the generated intervals: an interval of one of the five plain qualities is appended
+// under its English name, any other is skipped; the loop always goes on
+//@ func GenerateAttributes$1 returns (cont)
+//@   modifies attrs, jump$1
+//@   allocs []Attribute, []Iface
+//@   requires captured("jump$1") == 0
+//@   requires allNamed(attrs)
+//@   requires spec.validInterval(d.Value, note.qual(d.Name))
+//@   ensures cont && captured("jump$1") == 0 && allNamed(attrs) && len(attrs) >= old(len(attrs))
+
+//@ func GenerateAttributes returns (r)
+//@   allocs []Attribute, []Iface, []note.DegreeName
+//@   ensures allNamed(r)
+//@   loop note.GenerateDegrees$1/0 modifies attrs, jump$1
+//@   loop note.GenerateDegrees$1/0 allocs []Attribute, []Iface
+//@   loop note.GenerateDegrees$1/0 invariant captured("jump$1") == 0 && allNamed(attrs)
+//@   loop note.GenerateDegrees$1/1 modifies attrs, jump$1
+//@   loop note.GenerateDegrees$1/1 allocs []Attribute, []Iface
+//@   loop note.GenerateDegrees$1/1 invariant captured("jump$1") == 0 && allNamed(attrs)
+//@   loop note.GenerateDegrees$1/1 invariant 0 - 1 <= rangeindex && rangeindex < len(degreeNames)
